@@ -16,18 +16,21 @@ import (
 // C05 - link collections and ref-counted link collections between two real bolt stores A and B.
 //
 // Case lines (see coq/extraction/c05_driver.ml):
-//   H <nA> <idA>.. <nB> <idB>.. <ntx> { <nops> <op>.. }..
-//        a history of transactions; ids hex, both universes sorted and duplicate free
-//   S <nA> <idA>.. <nB> <idB>.. <sd> <a> <ncur> <cur>.. <nreq> <req>.. <npre> <pre>..
-//        all idA and the first <npre> idB exist... (see c05SetLinksCase); one SetLinks(a, req)
-//        on the collection of side sd in a state where a is linked to exactly cur
-//   op :=  C sd x | D sd x | AL sd a n k.. | RL sd a n k.. | SL sd a n k.. | A1 sd a k | R1 sd a k
-//        | I sd a k | DC sd a k | SC sd a k count
+//
+//	H <nA> <idA>.. <nB> <idB>.. <ntx> { <nops> <op>.. }..
+//	     a history of transactions; ids hex, both universes sorted and duplicate free
+//	S <nA> <idA>.. <nB> <idB>.. <sd> <a> <ncur> <cur>.. <nreq> <req>.. <npre> <pre>..
+//	     all idA and the first <npre> idB exist... (see c05SetLinksCase); one SetLinks(a, req)
+//	     on the collection of side sd in a state where a is linked to exactly cur
+//	op :=  C sd x | D sd x | AL sd a n k.. | RL sd a n k.. | SL sd a n k.. | A1 sd a k | R1 sd a k
+//	     | I sd a k | DC sd a k | SC sd a k count
+//
 // Observation lines: one block per transaction  <verdict> <dump>  joined by " ; " where
-//   verdict = ok | f<i> (index of the failing op; the transaction was rolled back)
-//   dump    = for side A then B, per universe id:  <present>:<GetLinks>:<IsLinked>:<IterateLinks>:<raw>:
-//             <GetLinkCounts src>:<GetLinkCounts tgt>:<GetLinkCount>:<rc raw>:<rc IterateLinks>
-//             with ids printed as indices into the other side's universe.
+//
+//	verdict = ok | f<i> (index of the failing op; the transaction was rolled back)
+//	dump    = for side A then B, per universe id:  <present>:<GetLinks>:<IsLinked>:<IterateLinks>:<raw>:
+//	          <GetLinkCounts src>:<GetLinkCounts tgt>:<GetLinkCount>:<rc raw>:<rc IterateLinks>
+//	          with ids printed as indices into the other side's universe.
 func init() { commands["c05"] = runC05 }
 
 const (
@@ -142,6 +145,11 @@ func (op c05Op) String() string {
 		b.WriteString(" " + hxs(op.keys[0]))
 	case "SC":
 		fmt.Fprintf(&b, " %s %d", hxs(op.keys[0]), op.count)
+	case "DW": // c05_hier.go: count = 1 -> filter true, else membership in keys
+		fmt.Fprintf(&b, " %d %d", op.count, len(op.keys))
+		for _, k := range op.keys {
+			b.WriteString(" " + hxs(k))
+		}
 	}
 	return b.String()
 }
@@ -155,6 +163,16 @@ func (w *c05World) apply(ctx boltz.MutateContext, op c05Op) (err error) {
 	}()
 	st := w.store[op.sd]
 	tx := ctx.Tx()
+	switch op.kind {
+	case "AL", "RL", "SL", "A1", "R1":
+		if st.links == nil { // K cases: the stores of this pair registered no plain link collection
+			return fmt.Errorf("no link collection registered for %s", st.field)
+		}
+	case "I", "DC", "SC":
+		if st.rcLinks == nil {
+			return fmt.Errorf("no ref-counted link collection registered for %s", st.rcField)
+		}
+	}
 	switch op.kind {
 	case "C":
 		return st.Create(ctx, &c05Ent{Id: op.a, typ: st.typ})
@@ -274,21 +292,33 @@ func (w *c05World) dump(tx *bbolt.Tx) string {
 			if st.IsEntityPresent(tx, x) {
 				present = "1"
 			}
-			// GetLinks
+			// GetLinks (a pair whose stores registered no collection of this kind - K cases - is read through
+			// the store's own readers of the fk set symbol: GetRelatedEntitiesIdList / IsEntityRelated / cursor)
 			var gl []string
-			for _, k := range st.links.GetLinks(tx, x) {
+			var linked []string
+			if st.links != nil {
+				linked = st.links.GetLinks(tx, x)
+			} else {
+				linked = st.GetRelatedEntitiesIdList(tx, x, st.field)
+			}
+			for _, k := range linked {
 				gl = append(gl, c05Idx(ou, k))
 			}
 			sort.Strings(gl)
 			// IsLinked for every id of the other universe
 			var il []string
 			for i, k := range ou {
-				if st.links.IsLinked(tx, []byte(x), []byte(k)) {
+				if (st.links != nil && st.links.IsLinked(tx, []byte(x), []byte(k))) || (st.links == nil && st.IsEntityRelated(tx, x, st.field, k)) {
 					il = append(il, strconv.Itoa(i))
 				}
 			}
 			sort.Strings(il)
-			it := c05Cursor(ou, st.links.IterateLinks(tx, []byte(x)))
+			var it string
+			if st.links != nil {
+				it = c05Cursor(ou, st.links.IterateLinks(tx, []byte(x)))
+			} else {
+				it = c05Cursor(ou, st.GetRelatedEntitiesCursor(tx, x, st.field, true))
+			}
 			// raw traversal of the link bucket
 			var raw []string
 			if b := c05RawBucket(tx, st.rawPath(x, st.field)); b != nil {
@@ -302,6 +332,9 @@ func (w *c05World) dump(tx *bbolt.Tx) string {
 			// ref counts
 			var cs, ct, cg []string
 			for i, k := range ou {
+				if st.rcLinks == nil {
+					break
+				}
 				s, t := st.rcLinks.GetLinkCounts(tx, []byte(x), []byte(k))
 				if v, ok := c05Count(s); ok {
 					cs = append(cs, fmt.Sprintf("%d=%s", i, v))
@@ -330,7 +363,28 @@ func (w *c05World) dump(tx *bbolt.Tx) string {
 				})
 			}
 			sort.Strings(craw)
-			cit := c05Cursor(ou, st.rcLinks.IterateLinks(tx, []byte(x), true))
+			var cit string
+			if st.rcLinks != nil {
+				cit = c05Cursor(ou, st.rcLinks.IterateLinks(tx, []byte(x), true))
+			} else {
+				// no collection: whatever the raw count bucket holds is reported by every count observer, and the
+				// peer's entry is read from the peer's raw bucket
+				cit = c05Cursor(ou, st.GetRelatedEntitiesCursor(tx, x, st.rcField, true))
+				cs, cg = append([]string{}, craw...), append([]string{}, craw...)
+				peer := w.store[1-sd]
+				for i, k := range ou {
+					if b := c05RawBucket(tx, peer.rawPath(k, peer.rcField)); b != nil && peer.IsEntityPresent(tx, k) {
+						if v := b.Get(boltz.PrependFieldType(boltz.TypeString, []byte(x))); v != nil {
+							if ft, val := boltz.GetTypeAndValue(v); ft == boltz.TypeInt32 && len(val) == 4 {
+								ct = append(ct, fmt.Sprintf("%d=%d", i, *boltz.BytesToInt32(val)))
+							} else {
+								ct = append(ct, fmt.Sprintf("%d=?%s", i, hx(v)))
+							}
+						}
+					}
+				}
+				sort.Strings(ct)
+			}
 			fmt.Fprintf(&sb, " %s:%s:%s:%s:%s:%s:%s:%s:%s:%s", present, c05Join(gl), c05Join(il), it, c05Join(raw),
 				c05Join(cs), c05Join(ct), c05Join(cg), c05Join(craw), cit)
 		}
@@ -970,7 +1024,9 @@ func runC05(o *opts) error {
 			case "S":
 				obs = runner.runSetLinks(t)
 			case "T":
-				obs = runner.runHier(t)
+				obs = runner.runHier(t, false)
+			case "K":
+				obs = runner.runHier(t, true)
 			default:
 				obs = "?"
 			}
@@ -1072,6 +1128,28 @@ func runC05(o *opts) error {
 		runLine(line)
 	}
 	stats["hier_histories"] = nt
+	// 5. the same with the kinds of collection each store registers varied (only ref-counted, only plain, both,
+	// several of one kind, none - c05HKindTopos + random) and DeleteWhere next to DeleteById
+	nk := 900
+	if o.thorough() {
+		nk = 12000
+	}
+	if o.n > 0 {
+		nk = o.n
+	}
+	kg := &c05HGen{r: r, stats: stats, kinded: true}
+	for i := 0; i < nk; i++ {
+		line, h := kg.genCase(i)
+		for _, tx := range h {
+			txs++
+			ops += len(tx)
+		}
+		for _, k := range kg.topo.kinds {
+			stats["kind_pair_"+k]++
+		}
+		runLine(line)
+	}
+	stats["kind_histories"] = nk
 	stats["histories"] = nh
 	stats["transactions"] = txs
 	stats["operations"] = ops
